@@ -368,7 +368,8 @@ class Ctx:
 
     def fail(self, signature: str, what: str, replay: dict):
         self.count("oracle.fail:" + signature)
-        if len(self.failures) < 500:
+        # keep a few witnesses per signature (the histogram keeps the totals)
+        if self.hist["oracle.fail:" + signature] <= 3 and len(self.failures) < 2000:
             self.failures.append(Failure(signature, what, replay))
 
     def elapsed(self):
@@ -403,8 +404,13 @@ def run_check(mod, prop: str, tier: str, seed: int) -> int:
     ctx = Ctx(prop, tier, seed)
     known = load_known()
     known_sigs = {f["signature"]: f for f in known.get("findings", []) if f["property"] == prop}
-    lines = []
     infra_error = None
+    import glob as _glob
+    for old in _glob.glob(os.path.join(VERIF, "evidence", "replays", f"{prop}-*.json")):
+        try:
+            os.remove(old)
+        except OSError:
+            pass
 
     # A + B
     try:
@@ -496,6 +502,7 @@ def run_check(mod, prop: str, tier: str, seed: int) -> int:
             "samples": ctx.samples[:12] or ["(no generated cases)"],
             "traces_validated_against_impl": ctx.corr_count,
             "correspondence_mismatches": ctx.hist.get("corr.mismatch", 0),
+            "mismatch_samples": [[m.op[:400], m.impl[:200], m.model[:200]] for m in ctx.mismatches[:8]],
             "oracle_failures_known": len(seen_known),
             "oracle_failures_new": len(by_sig),
             "histogram": dict(sorted(ctx.hist.items())),
